@@ -765,7 +765,7 @@ def run(ctx):
     inj = YieldInjector(DR, ctx.seed * 131 + ctx.shard, 0.08)
     ctx.note("yield_injection_active", bool(inj.ok))
     ctx.note("monitored_code_objects", len(inj.codes))
-    H = ctx.n(320, 24000)
+    H = ctx.n(480, 24000)
     try:
         for j in range(H):
             if j >= (H // 3 if ctx.quick else H // 12) and not ctx.more():
